@@ -12,15 +12,29 @@ repo = sys.argv[1] if len(sys.argv) > 1 else "/repo"
 root = "/verif/benign"
 hist = json.load(open(os.path.join(root, "history.json"))) if os.path.exists(os.path.join(root, "history.json")) else {}
 rows, bad = [], 0
-for d in sorted(glob.glob(os.path.join(root, "*/")), key=lambda s: [int(x) if x.isdigit() else x for x in re.split(r"(\d+)", s)]):
+# parallel use: REEVAL_SHARD=i/n evaluates every n-th refactoring on the given eval worktree and writes
+# <dir>/result.json; REEVAL_INDEX_ONLY=1 rebuilds INDEX.md from those files without running anything
+shard = os.environ.get("REEVAL_SHARD")
+index_only = os.environ.get("REEVAL_INDEX_ONLY") == "1"
+for di, d in enumerate(sorted(glob.glob(os.path.join(root, "*/")), key=lambda s: [int(x) if x.isdigit() else x for x in re.split(r"(\d+)", s)])):
+    if shard:
+        si, sn = map(int, shard.split("/"))
+        if di % sn != si:
+            continue
     bid = os.path.basename(d.rstrip("/"))
     patch = os.path.join(d, "patch.diff")
     if not os.path.exists(patch):
         continue
-    p = subprocess.run(["/verif/tools/try_mutation.sh", patch, repo], capture_output=True, text=True, errors="replace")
-    out = p.stdout
-    fired = sorted({l.split()[0] for l in out.split("\n") if l.startswith("    ")})
-    applies = "does not apply" not in out
+    resf = os.path.join(d, "result.json")
+    if index_only and os.path.exists(resf):
+        res = json.load(open(resf))
+        fired, applies = res["fired"], res["applies"]
+    else:
+        p = subprocess.run(["/verif/tools/try_mutation.sh", patch, repo], capture_output=True, text=True, errors="replace")
+        out = p.stdout
+        fired = sorted({l.split()[0] for l in out.split("\n") if l.startswith("    ")})
+        applies = "does not apply" not in out
+        json.dump({"fired": fired, "applies": applies}, open(resf, "w"))
     title = ""
     notes = os.path.join(d, "NOTES.md")
     if os.path.exists(notes):
@@ -33,6 +47,8 @@ for d in sorted(glob.glob(os.path.join(root, "*/")), key=lambda s: [int(x) if x.
         bad += 1
     rows.append((bid, title, files, applies, fired, hist.get(bid, [])))
 
+if shard:
+    print("shard", shard, "done:", len(rows), "firing:", bad); sys.exit(0)
 with open(os.path.join(root, "INDEX.md"), "w") as f:
     f.write("# Behaviour-preserving refactorings used as a false-alarm test\n\n")
     f.write("Written by sub-agents that were given only a scratch worktree and the instruction to refactor\n"
